@@ -162,13 +162,97 @@ def comb_programs(rng, n):
     return out
 
 
+def strip_type(e):
+    o = {'prim': e['prim']}
+    if e.get('args'):
+        o['args'] = [strip_type(a) if isinstance(a, dict) and 'prim' in a else a for a in e['args']]
+    return o
+
+
+def reannotate_code(rng, code, how):
+    """how: 'strip' (every annotation inside type arguments removed) | 'rename' (random field/type annotations instead)."""
+    if isinstance(code, list):
+        return [reannotate_code(rng, x, how) for x in code]
+    if isinstance(code, dict) and 'prim' in code:
+        e = dict(code)
+        args = list(e.get('args') or [])
+        targs = TYPE_ARGS.get(e['prim'], []) + ([0] if e['prim'] == 'CONTRACT' else [])
+        for i, a in enumerate(args):
+            if i in targs and isinstance(a, dict):
+                args[i] = strip_type(a) if how == 'strip' else annotate_type(rng, strip_type(a), None, 0.6)
+            elif isinstance(a, list) or (isinstance(a, dict) and 'prim' in a and e['prim'] not in ('PUSH',)):
+                args[i] = reannotate_code(rng, a, how)
+        if args:
+            e['args'] = args
+        return e
+    return code
+
+
+def judge_real(ctx, rng):
+    """Real contracts: the storage type and every type argument inside the code re-annotated (the parameter type keeps its
+    entrypoint names, instructions keep their own annotations); the same recorded call must give the same trace and result."""
+    from pytezos.michelson.repl import Interpreter
+    from rv.checks import _real as R
+    done = {}
+    for label, c, ep, path, tx, arg, storage, env in R.calls(ctx):
+        n = done.get((c['name'], ep), 0)
+        if n >= 2:
+            continue
+        done[(c['name'], ep)] = n + 1
+        if not ctx.mine(len(done)):
+            continue
+        how = 'strip' if n == 0 else 'rename'
+        var = []
+        for sec in c['code']:
+            if sec.get('prim') == 'storage':
+                t0 = sec['args'][0]
+                var.append({'prim': 'storage', 'args': [strip_type(t0) if how == 'strip' else annotate_type(rng, strip_type(t0), None, 0.6)]})
+            elif sec.get('prim') == 'code':
+                var.append({'prim': 'code', 'args': [reannotate_code(rng, sec['args'][0], how)]})
+            else:
+                var.append(sec)
+        runs = []
+        for script in (c['code'], var):
+            with H.monitoring(step_limit=400000) as mon:
+                try:
+                    out = Interpreter.run_code(parameter=arg, storage=storage, script=script, entrypoint=ep, **L.env_kwargs(env))
+                except H.HarnessAbort:
+                    out = None
+            runs.append((mon, out))
+        (bm, bo), (vm, vo) = runs
+        case = {'label': 'real-contract', 'contract': c['name'], 'entrypoint': ep, 'how': how, 'call': label}
+        ctx.count('real_contract_variants')
+        ctx.case(('real', c['name'], ep, how, label), nontrivial=len(bm.events) >= 12)
+        if bo is None or vo is None:
+            ctx.violation('C17|runaway', 'real contract %s' % label, case)
+            continue
+        div = L.first_divergence(bm.events, vm.events, 'values')
+        if div is not None:
+            ctx.violation('C17|%s|%s' % (div['prim'], div['class']), 'real contract %s, type arguments %s: differs after instruction #%d %s: %s'
+                          % (label, how, div['index'], div['prim'], div['detail']), case)
+            continue
+        if (bo[4] is None) != (vo[4] is None) or len(bm.events) != len(vm.events):
+            ctx.violation('C17|%s|failure-depends-on-annotations' % ((vm.raised or bm.raised or [('?',)])[0][0]),
+                          'real contract %s: plain %s; re-annotated %s' % (label, L.errtext(bo[4]) if bo[4] else 'ok', L.errtext(vo[4]) if vo[4] else 'ok'), case)
+            continue
+        if bo[4] is not None and bm.failwith is not None and vm.failwith is not None and L.slot_diff(bm.failwith, vm.failwith, 'values'):
+            ctx.violation('C17|FAILWITH|failure-value-depends-on-annotations', 'real contract %s' % label, case)
+            continue
+        if bo[4] is None and (bo[1] != vo[1] or bo[0] != vo[0]):
+            ctx.violation('C17|run_code|result-depends-on-annotations', 'real contract %s: storage/operations %r vs %r' % (label, (bo[0], bo[1]), (vo[0], vo[1])), case)
+            continue
+        ctx.count('real_contract_variants_equal')
+        ctx.count('real_contract_hook_events', len(bm.events))
+
+
 def run(ctx):
     rng = ctx.rng
     ctx.rule = ('programs: comb-focused (GET n / UPDATE n / UNPAIR n / PACK / UNPACK / COMPARE on combs of 2..6 leaves), instruction sweeps '
                 'and compiled programs; each executed plain and with %d random re-annotations of every type argument (field '
                 'annotations on pair/or members incl. the inner right-hand pairs of combs, type annotations anywhere); traces after '
                 'every instruction, failures, FAILWITH values and PACK bytes must be identical; distinct by annotated program text; '
-                'non-trivial = the program touches combs/PACK/COMPARE' % ctx.pick(3, 4))
+                'non-trivial = the program touches combs/PACK/COMPARE; plus the mainnet scripts of the repository tests with their '
+                'storage type and all type arguments stripped of / re-decorated with annotations, on the recorded calls' % ctx.pick(3, 4))
     nv = ctx.pick(3, 4)
     progs = comb_programs(rng, ctx.pick(500, 30000) // ctx.nshards)
     sw = GP.sweeps(ctx.quick)
@@ -183,6 +267,8 @@ def run(ctx):
     envs = GP.env_configs(rng, 6)
     for label, code in progs:
         judge(ctx, rng, label, code, envs[rng.randrange(len(envs))] if rng.random() < 0.3 else None, nv)
+    judge_real(ctx, rng)
+    ctx.require('real_contract_variants_equal' if not ctx.violations else 'real_contract_variants', 10)
     ctx.require('variants', 500)
     ctx.require('variants_equal' if not ctx.violations else 'variants', 300)
     for p_ in ('GET', 'UPDATE', 'UNPAIR', 'PACK', 'COMPARE'):
@@ -190,6 +276,8 @@ def run(ctx):
 
 
 def replay(ctx, case):
+    if case.get('label') == 'real-contract':
+        return judge_real(ctx, ctx.rng)
     code, var = case['code'], case.get('variant')
     env = K.env_from_json(case.get('env'))
     b, bres, bfail = real_trace(code, env)
